@@ -20,7 +20,7 @@ Definition exC : cut := {|
                {| cb_u := 12; cb_v := 13; cb_ord := VInt 2; cb_lab := S "c"; cb_dollar := true |};
                {| cb_u := 13; cb_v := 14; cb_ord := VInt 1; cb_lab := []; cb_dollar := true |};
                {| cb_u := 10; cb_v := 15; cb_ord := VInt 1; cb_lab := []; cb_dollar := true |} ];
-  c_parts := [(S "A", [11; 10; 15]); (S "B", [12]); (S "D", [13; 14])] |}.
+  c_parts := [(S "A", [11; 10; 15]); (S "B", [12]); (S "D", [13; 14])]; c_dord := [] |}.
 
 Example exC_hypotheses :
   wf_cutb exC = true /\ templates_okb exC (fragdict_of exC) = true /\ is_baseb exC (base_of exC) = true.
@@ -76,7 +76,7 @@ Definition aratom : attrs := [(S "element", VStr (S "C")); (S "charge", VInt 0);
 Definition exAr : cut := {|
   c_atoms := [(0, aratom); (1, aratom)];
   c_bonds := [ {| cb_u := 0; cb_v := 1; cb_ord := VFlt (S "1.5"); cb_lab := S "r"; cb_dollar := false |} ];
-  c_parts := [(S "X", [0]); (S "Y", [1])] |}.
+  c_parts := [(S "X", [0]); (S "Y", [1])]; c_dord := [] |}.
 Example aromatic_cut_nonvacuous :
   wf_cutb exAr = true /\ templates_okb exAr (fragdict_of exAr) = true /\ is_baseb exAr (base_of exAr) = true /\
   result_order exAr 0 1 = Some (VFlt (S "1.5")) /\ forallb (cut_faithful exAr) (cuts exAr) = true /\
